@@ -341,12 +341,47 @@ def array_redef_case(draw):
             "stage2": lines.pop() if draw(st.booleans()) else None}
 
 
+@st.composite
+def custom_unit_options_case(draw):
+    """options written in a custom unit defined in the same text (or with DIP.add_unit): compared after conversion to the
+    node's unit like any other"""
+    fac = draw(st.sampled_from([2, 5, 0.5]))
+    base = draw(st.sampled_from(["m", "cm", "s"]))
+    opts = draw(st.lists(st.sampled_from([1, 2, 3, 4, 10]), min_size=1, max_size=3, unique=True))
+    ok = draw(st.booleans())
+    val = (draw(st.sampled_from(opts)) if ok else max(opts) + 1.5) * fac
+    lines = [f"$unit len = {fac} {base}", f"x float = {fmt(val)} {base}"]
+    if draw(st.booleans()):
+        lines += [f"  = {o} [len]" for o in opts]
+    else:
+        lines.append("  !options [" + ",".join(str(o) for o in opts) + "] [len]")
+    return {"kind": "lines", "lines": lines, "expect_ok": ok, "what": "options_in_custom_unit"}
+
+
+@st.composite
+def format_array_case(draw):
+    """a string array with !format: an environment is never returned with an element that does not match (whether a
+    fully matching array is accepted is not claimed: !format is documented for scalar strings)"""
+    good = ["John", "Paul", "Anna"]
+    bad = draw(st.sampled_from(["7-up", "john", "J0hn", ""]))
+    n = draw(st.integers(1, 3))
+    vals = [draw(st.sampled_from(good)) for _ in range(n)]
+    vals[draw(st.integers(0, n - 1))] = bad
+    lit = json.dumps(vals, separators=(",", ":"))
+    lines = [f"names str[{n}] = {lit}", "  !format '^[A-Z][a-z]+$'"]
+    if draw(st.booleans()):
+        lines = [f"names str[{n}] = " + json.dumps(good[:n] if n <= 3 else good, separators=(",", ":")), "  !format '^[A-Z][a-z]+$'",
+                 f"names = {lit}"]
+    return {"kind": "lines", "lines": lines, "expect_ok": False, "what": "format_on_array"}
+
+
 def strategies(tier):
     return {"numeric": (numeric_case(), 2500, 60000), "string": (string_case(), 800, 20000), "bool": (bool_case(), 200, 4000),
             "array": (array_case(), 600, 12000), "declaration": (decl_case(), 150, 2000),
             "imported": (imported_case(), 300, 6000), "same_literal": (same_literal_case(), 300, 6000),
             "cross_node": (cross_node_case(), 400, 8000),
-            "two_conditions": (two_conditions_case(), 300, 6000), "array_redef": (array_redef_case(), 300, 6000)}
+            "two_conditions": (two_conditions_case(), 300, 6000), "array_redef": (array_redef_case(), 300, 6000),
+            "custom_unit_options": (custom_unit_options_case(), 250, 5000), "format_array": (format_array_case(), 150, 3000)}
 
 
 # --------------------------------------------------------------------------- rendering
